@@ -533,6 +533,53 @@ def real_temp_case(args) -> List[Fail]:
     return fails
 
 
+def multi_agent_case(args) -> List[Fail]:
+    """several agents share one snapshot directory and write in turn; an agent re-snapshotting a state that did not
+    change writes a body identical to the file already there.  After every write, loading into a fresh state restores
+    what the LAST writer wrote (discovery = newest write)."""
+    base, i = args
+    import time as _time
+    os.environ["SOURCE_DATE_EPOCH"] = str(EPOCH)
+    from clematis.engine import snapshot as S
+    d = worker_dir(base)
+    bnd = {"name": "t4default", "lo": -10 ** 7, "hi": 10 ** 7, "eps": 0}
+    orders = [["A", "B", "A"], ["B", "A", "B", "A"], ["A", "A", "B", "B", "A"], ["Bé", "A", "Bé"], ["A", "B", "C", "A", "B"], ["A", "B", "A", "A"]]
+    order = orders[i % len(orders)]
+    skind = ["w", "expimp"][(i // len(orders)) % 2]
+    world = {}
+    for j, ag in enumerate(sorted(set(order))):
+        store = mk_store(skind)
+        store.w[("node", f"n:{ag}", "weight")] = 0.25 * (j + 1)
+        gel = {"nodes": {f"n:{ag}": node_rec(f"n:{ag}"), "n:z": node_rec("n:z")},
+               "edges": {f"n:z→n:{ag}": {"id": f"n:z→n:{ag}", "src": "n:z", "dst": f"n:{ag}", "weight": 0.5 - 0.125 * j, "rel": "coact", "attrs": {}}},
+               "meta": {"schema": "v1.1", "merges": [], "splits": [], "promotions": [], "concept_nodes_count": 0, "edges_count": 1}}
+        world[ag] = (mk_state("dict", "graph", gel, store), str(3 + 4 * j))
+    fails: List[Fail] = []
+    for step, ag in enumerate(order):
+        st, ver = world[ag]
+        ctx = mk_ctx(d, ag, bnd)
+        try:
+            S.write_snapshot(ctx, st, ver)
+        except Exception as e:      # noqa: BLE001
+            return [("RestoreVersion", {"feature": f"write-raised:{type(e).__name__}"}, f"write_snapshot raised {type(e).__name__}: {e}")]
+        st2 = mk_state("dict", "graph", None, mk_store(skind))
+        try:
+            info = S.load_latest_snapshot(ctx, st2)
+        except Exception as e:      # noqa: BLE001
+            return [("RestoreVersion", {"feature": f"load-raised:{type(e).__name__}"}, f"load_latest_snapshot raised {type(e).__name__}: {e}")]
+        where = f"writes so far {order[:step + 1]} (store {skind})"
+        if sget(st2, "version_etag") != ver:
+            fails.append(("RestoreVersion", {"feature": "multi-agent-latest"}, f"{where}: loaded version {sget(st2, 'version_etag')!r} from {os.path.basename(str(info.get('path')))}, "
+                                                                                f"the last writer {ag!r} wrote {ver!r}"))
+            break
+        got_w = dict(sget(st2, "store").w)
+        if got_w != dict(st["store"].w):
+            fails.append(("RestoreWeights", {"feature": "multi-agent-latest"}, f"{where}: loaded weights {got_w}, the last writer wrote {dict(st['store'].w)}"))
+            break
+        _time.sleep(0.03)       # distinct modification times (the kernel's file clock ticks in milliseconds)
+    return fails
+
+
 def auto_writer_case(args) -> List[Fail]:
     """PR34 writer: sidecar carries the frozen marker, header is snapshot:v1, discovery picks the body"""
     base, i = args
@@ -748,6 +795,9 @@ def check(run) -> None:
     n = 8 if q else 64
     outs = pmap(real_temp_case, [(base, i) for i in range(n)], procs=1)
     _account(run, "Discovery.real_temporaries_ignored", list(range(n)), outs, "realtmp", lambda i: {"realtmp": i})
+    n = 12 if q else 48
+    outs = pmap(multi_agent_case, [(base, i) for i in range(n)], procs=4)
+    _account(run, "Discovery.last_writer_restored", list(range(n)), outs, "multiagent", lambda i: {"multiagent": i})
     outs = pmap(auto_writer_case, [(base, i) for i in range(10)], procs=1)
     _account(run, "SchemaMarker.pr34_writer", list(range(8)), outs, "auto", lambda i: {"auto": i})
     run.exhaustive = True
@@ -784,6 +834,8 @@ def replay(rep) -> int:
         fails = real_temp_case((base, r["realtmp"]))
     elif "auto" in r:
         fails = auto_writer_case((base, r["auto"]))
+    elif "multiagent" in r:
+        fails = multi_agent_case((base, r["multiagent"]))
     else:
         fails = c06_random.random_case((base, r["random"][0], r["random"][1]))
     shutil.rmtree(base, ignore_errors=True)
